@@ -259,14 +259,23 @@ structure TimeSite where
   guard : String
   check : String
   precedesCompute : Bool
+  infer : String   -- how omitted time arrays are filled in *before* the check: `all3-if-any-none` = inside
+                   -- `if time_obs is None or time_cm_hist is None or time_cm_future is None:` the three are rebound to
+                   -- `infer_and_create_time_arrays_if_not_given(obs, cm_hist, cm_future, time_obs, time_cm_hist, time_cm_future)`;
+                   -- `future-if-none` = `if time_cm_future is None: time_cm_future = create_array_of_consecutive_dates(cm_future.size)`
   deriving DecidableEq, Repr
 
 def timeSites : List TimeSite := [
-  ⟨"RunningWindowDebiaser", "apply_location", "running_window_mode", "all3", true⟩,
-  ⟨"DeltaChange", "apply_location", "running_window_mode", "all3", true⟩,
-  ⟨"ISIMIP", "apply_location", "", "all3", true⟩,
-  ⟨"CDFt", "apply_on_window", "running_window_mode_over_years_of_cm_future", "future", true⟩,
-  ⟨"QuantileDeltaMapping", "apply_on_window", "running_window_mode_over_years_of_cm_future", "future", true⟩]
+  ⟨"RunningWindowDebiaser", "apply_location", "running_window_mode", "all3", true, "all3-if-any-none"⟩,
+  ⟨"DeltaChange", "apply_location", "running_window_mode", "all3", true, "all3-if-any-none"⟩,
+  ⟨"ISIMIP", "apply_location", "", "all3", true, "all3-if-any-none"⟩,
+  ⟨"CDFt", "apply_on_window", "running_window_mode_over_years_of_cm_future", "future", true, "future-if-none"⟩,
+  ⟨"QuantileDeltaMapping", "apply_on_window", "running_window_mode_over_years_of_cm_future", "future", true, "future-if-none"⟩]
+
+/-- `infer_and_create_time_arrays_if_not_given` on sizes: only the *missing* arrays are created (with the length of their
+    series); an array that was given is passed through untouched, whatever its length -/
+def inferTime (nObs nHist nFut : Int) (tObs tHist tFut : Option Int) : Int × Int × Int :=
+  (tObs.getD nObs, tHist.getD nHist, tFut.getD nFut)
 
 /-- the configuration as far as dates matter -/
 structure TimeCfg where
@@ -292,5 +301,10 @@ def timeChecked (d : Deb) (c : TimeCfg) : Bool × Bool × Bool :=
 def timeOutcome (d : Deb) (c : TimeCfg) (nObs nHist nFut tObs tHist tFut : Int) : Except String Unit :=
   let (co, ch, cf) := timeChecked d c
   if (co && nObs != tObs) || (ch && nHist != tHist) || (cf && nFut != tFut) then .error "ValueError" else .ok ()
+
+/-- the time checks with *partial* time information (`none` = the keyword was not passed): inference, then the check -/
+def timeOutcomeP (d : Deb) (c : TimeCfg) (nObs nHist nFut : Int) (tObs tHist tFut : Option Int) : Except String Unit :=
+  let t := inferTime nObs nHist nFut tObs tHist tFut
+  timeOutcome d c nObs nHist nFut t.1 t.2.1 t.2.2
 
 end Model.Contract
